@@ -41,7 +41,7 @@ def r1_comment_coverage(w):
                 how = sorted({a for o in g.paths for a in sites_mod.outcome_summary(o) if 'child' in a} | ({'queued-as-node'} if any(o.pushed for o in g.paths) else set()))
                 r.ok(cons, 'emitted on every path: %s' % how)
             else:
-                why = e2.droppable(g)
+                why = e2.droppable(g, w)
                 if why:
                     r.ok(cons, 'exempt: ' + why)
                     continue
